@@ -79,6 +79,11 @@ func genC03(seed uint64, tier string) *world.Scenario {
 		if r.Bool(0.08) && !f.Driver.NoEnable {
 			f.Driver.ModeStuck = true
 		}
+		if br := kernel.NewRand(seed, "c03.busymode."+f.ID); br.Bool(0.2) && !f.Driver.NoEnable {
+			// while regulating, the mode attribute refuses every write for a cycle or a few (EBUSY / EIO around a
+			// resume, a locked chip bank); PWM writes keep working; later - possibly much later - fan2go is stopped
+			sc.Faults = append(sc.Faults, world.FaultSpec{Op: "write", Target: "fan:" + f.ID + ":enable", Nth: br.Range(0, 6), Count: kernel.Pick(br, 2, 4, 6, 12), Kind: kernel.Pick(br, "ebusy", "error", "einval"), OnlyFlags: "upd"})
+		}
 		if ur := kernel.NewRand(seed, "c03.unreadable."+f.ID); ur.Bool(0.12) && kind != "cmd" && f.PwmMap != nil {
 			// a fan whose PWM value can never be read (every read of the file fails): fan2go then works with
 			// the value it believes to have set; often with the curve at its maximum when the signal comes
